@@ -1090,7 +1090,10 @@ class Scheduler:
         min_stripe_h = sub_schedule.cost_map[last_op].stripe.height + 1
 
         possible_stripes = [
-            final_ofm_shape.with_height(stripe_h) for stripe_h in range(min_stripe_h, final_ofm_shape.height // 2 + 1)
+            final_ofm_shape.with_height(stripe_h)
+            for stripe_h in range(min_stripe_h, final_ofm_shape.height // 2 + 1)
+            # nearest neighbour upscaling requires even stripes, also when the upscaling Op is the last Op of the cascade
+            if not (is_nearest(last_op.resampling_mode) and stripe_h % 2)
         ]
         # Propose different striping
         best_schedule = None
